@@ -162,7 +162,7 @@ func init() {
 				w.violate("no-rows", "declaration %s stored no row at all over blocks that contain matching items", p.Note)
 			}
 			// which RPC methods were used, for the report
-			for _, ss := range w.srcs {
+			for _, ss := range w.sources() {
 				seen := map[string]bool{}
 				for _, r := range ss.node.Reqs {
 					seen[r.Method] = true
